@@ -147,11 +147,9 @@ func normalizePrefix(bound []s2.CellID, minL, maxL, mod int) s2.CellUnion {
 	return cu
 }
 
-// fallbackTaken: does FastCovering with these options reach normalizeCovering's "very large covering"
-// branch (NewRegionCoverer().Covering(&covering)) for this bound?
-func fallbackTaken(bound []s2.CellID, rc s2.RegionCoverer) bool {
-	minL, maxL, mod := clamp(rc)
-	cu := normalizePrefix(bound, minL, maxL, mod)
+// branchTaken: does normalizeCovering, arrived at the prepared covering cu with these options, take
+// its "very large covering" branch (rc.Covering(&covering) with the coverer's own options)?
+func branchTaken(cu s2.CellUnion, rc s2.RegionCoverer) bool {
 	excess := len(cu) - rc.MaxCells
 	if excess <= 0 || rc.IsCanonical(cu) {
 		return false
@@ -159,34 +157,50 @@ func fallbackTaken(bound []s2.CellID, rc s2.RegionCoverer) bool {
 	return excess*len(cu) > 10000
 }
 
-// fallbackTerm gives the model the result of the default coverer on the cell unions that
-// normalizeCovering may hand to it for this bound (FastCovering's own options and the options
-// of the temporary coverer inside initialCandidates).
-func fallbackTerm(c *vkit.Collector, bound []s2.CellID, rc s2.RegionCoverer, label string) string {
+func fallbackTaken(bound []s2.CellID, rc s2.RegionCoverer) bool {
 	minL, maxL, mod := clamp(rc)
+	return branchTaken(normalizePrefix(bound, minL, maxL, mod), rc)
+}
+
+// tempOpts: the options of the temporary coverer of initialCandidates.
+func tempOpts(rc s2.RegionCoverer) s2.RegionCoverer {
+	_, maxL, _ := clamp(rc)
+	return s2.RegionCoverer{MinLevel: 0, MaxLevel: maxL, LevelMod: 1, MaxCells: mini(4, rc.MaxCells)}
+}
+
+// fallbackTerm gives the model's nested coverer (cu_fallback) the one thing it cannot compute: the
+// CellUnionBound (float geometry) of every cell union on which the "very large covering" branch
+// re-runs the coverer.  The chain of nested runs is replayed with the public API: the branch covers
+// cu with the same options; that run's initial candidates come from FastCovering with the
+// temporary options on cu's CellUnionBound, which may take the branch again, and so on.
+func fallbackTerm(c *vkit.Collector, bound []s2.CellID, rc s2.RegionCoverer, label string) string {
 	entries := []string{}
 	seen := map[string]bool{}
-	add := func(cu s2.CellUnion, maxCells int) {
-		excess := len(cu) - maxCells
-		if excess <= 0 || excess*len(cu) <= 10000 || len(cu) > 4000 {
-			return
+	chain := func(b []s2.CellID, o s2.RegionCoverer) {
+		for depth := 0; depth < 60; depth++ {
+			minL, maxL, mod := clamp(o)
+			cu := normalizePrefix(b, minL, maxL, mod)
+			if !branchTaken(cu, o) {
+				return
+			}
+			k := idList(cu)
+			if seen[k] {
+				return
+			}
+			seen[k] = true
+			cp := append(s2.CellUnion{}, cu...)
+			cub := cp.CellUnionBound()
+			entries = append(entries, vkit.Pair(k, idList(cub)))
+			c.Class("large-covering-branch")
+			if v, _ := c.Extra["max_branch_nesting"].(int); depth+1 > v {
+				c.Extra["max_branch_nesting"] = depth + 1
+			}
+			b, o = cub, tempOpts(o)
 		}
-		k := idList(cu)
-		if seen[k] {
-			return
-		}
-		seen[k] = true
-		cp := append(s2.CellUnion{}, cu...)
-		out := s2.NewRegionCoverer().Covering(&cp)
-		entries = append(entries, vkit.Pair(k, idList(out)))
-		c.Class("fallback-branch")
-		// the modelled fallback itself: default coverer on the cell union as a region
-		cub := cp.CellUnionBound()
-		c.Check("cu_fallback "+label, vkit.App("olist_eqb", vkit.App("cu_fallback", "(fun _ => "+idList(cub)+")", k), idList(out)))
 	}
-	add(normalizePrefix(bound, minL, maxL, mod), rc.MaxCells)
-	add(normalizePrefix(bound, 0, maxL, 1), mini(4, rc.MaxCells))
-	return vkit.App("fallback_table", vkit.List(entries))
+	chain(bound, rc)
+	chain(bound, tempOpts(rc))
+	return vkit.App("cu_fallback", "fallback_depth", vkit.App("cubound_table", vkit.List(entries)))
 }
 
 // ---- configurations ----
@@ -297,8 +311,8 @@ func runC05(c *vkit.Collector, rng *vkit.Rng, budget int) {
 
 // corpus: committed regression inputs, run first on every run.
 func corpus(c *vkit.Collector, rng *vkit.Rng) {
-	// KNOWN FINDING FastCovering(default-coverer-fallback).levels: MinLevel 10, LevelMod 3, MaxCells -2600
-	// returns one level-15 cell ((15-10) mod 3 != 0)
+	// FIXED FINDING (81ed250) FastCovering(default-coverer-fallback).levels: MinLevel 10, LevelMod 3, MaxCells -2600
+	// used to return one level-15 cell ((15-10) mod 3 != 0); must pass now
 	ctr := s2.PointFromCoords(0.325766071553077463107684, 0.298457980512092713176742, -0.897106069811991924112249)
 	tr := capRegion(rng, ctr, "corpus-1", float64(s1.ChordAngleFromAngle(s1.Angle(6.960887510911511e-06))))
 	observe(c, rng, tr, s2.RegionCoverer{MinLevel: 10, MaxLevel: 24, LevelMod: 3, MaxCells: -2600}, "corpus-1 "+tr.name, true)
@@ -364,8 +378,8 @@ func observe(c *vkit.Collector, rng *vkit.Rng, tr *testRegion, rc s2.RegionCover
 	// [S] level limits
 	checkLevels(c, "Covering", cov, minL, maxL, mod, rep)
 	if fallbackTaken(bound, rc) {
-		// known finding: that branch covers with NewRegionCoverer() defaults instead of the configured options
-		c.Class("fast:default-coverer-fallback")
+		// fixed finding (81ed250): that branch used to cover with NewRegionCoverer() defaults; the kind is kept
+		c.Class("fast:large-covering-branch")
 		checkLevels(c, "FastCovering(default-coverer-fallback)", fast, minL, maxL, mod, rep)
 	} else {
 		checkLevels(c, "FastCovering", fast, minL, maxL, mod, rep)
